@@ -93,6 +93,11 @@ def gcc_rejects(src):
     return rc != 0
 
 
+def clang_rejects(src):
+    rc, o, e = common.sh(['clang', '-std=c11', '-pedantic-errors', '-fsyntax-only', '-x', 'c', '-'], input=src.encode('latin-1') if isinstance(src, str) else src)
+    return rc != 0
+
+
 def run(tier):
     ck = common.Check(PID, tier)
     exe = common.build('plain')
@@ -124,7 +129,7 @@ def run(tier):
         else:
             ctx, fs, body = insts[0]
             minimal = build('', ctx, fs, body)
-        if cls == 'lang' and not gcc_rejects(minimal):
+        if cls == 'lang' and not (gcc_rejects(minimal) or (len(ent) > 4 and ent[4] == 'clang' and clang_rejects(minimal))):
             guard_skip += 1
             ck.skip('template-accepted-by-gcc')
             ck.extra.setdefault('templates_not_rejected_by_gcc', []).append(text[:80])
